@@ -1304,3 +1304,111 @@ Proof.
   apply (struct_toks_of_shape type_bits type_bits_dir). apply (rebuild_shape v s Sv Nv Hs).
 Qed.
 End IncrementalStructure.
+
+(* ------------------------------------------------------------------ the filtered tree signature *)
+
+Lemma eff_fresh v : eff (fresh_s v) = v.
+Proof.
+  induction v as [|i cs IH] using vtree_ind'; [reflexivity|].
+  cbn [fresh_s eff]. f_equal. rewrite map_map. cbn [fst snd].
+  induction cs as [|[n c] cs IHl]; [reflexivity|]. inversion IH as [|? ? IHc IHcs]; subst. cbn [snd] in IHc.
+  cbn [map fst snd]. rewrite IHc, (IHl IHcs). reflexivity.
+Qed.
+
+Lemma clean_build_fresh matches v : clean_build matches [] v = fresh_s (canon v).
+Proof.
+  induction v as [|i cs IH] using vtree_ind'; [reflexivity|].
+  rewrite clean_build_node. cbn [canon fresh_s]. f_equal.
+  rewrite (sort_by_map fresh_s). f_equal.
+  unfold kept. cbn [excluded existsb]. rewrite flat_map_singleton, map_map. cbn [fst snd].
+  apply (map_pair_ext_Forall (fun x => clean_build matches [] x) (fun x => fresh_s (canon x))). exact IH.
+Qed.
+
+Lemma same_beneath_eq i cs j ds : same_beneath (VNode i cs) (VNode j ds) -> i = j -> VNode i cs = VNode j ds.
+Proof. intros Hs E. subst j. inversion Hs; subst; reflexivity. Qed.
+
+Lemma names_fresh_children (cs : list (bytes * vtree)) :
+  names (map (fun nc : bytes * vtree => (fst nc, fresh_s (snd nc))) cs) = names cs.
+Proof. apply names_map_snd. Qed.
+
+(* equal filtered tokens -> the same tree beneath the root *)
+Lemma tree_toks_filtered_inj v1 : forall v2 p, wf_v v1 -> wf_v v2 ->
+  tree_toks true p (fresh_s v1) = tree_toks true p (fresh_s v2) -> same_beneath v1 v2.
+Proof.
+  induction v1 as [|i cs IH] using vtree_ind'; intros [|j ds] p W1 W2 E.
+  - constructor.
+  - exfalso. cbn [fresh_s] in E. rewrite tree_toks_missing, tree_toks_node in E. apply toks2_inj in E. destruct E as [E _].
+    cbn [dir_value_enc] in E. revert E. destruct (isdir j); apply enc_kind_neq; cbn; discriminate.
+  - exfalso. cbn [fresh_s] in E. rewrite tree_toks_missing, tree_toks_node in E. apply toks2_inj in E. destruct E as [E _].
+    cbn [dir_value_enc] in E. symmetry in E. revert E. destruct (isdir i); apply enc_kind_neq; cbn; discriminate.
+  - cbn [fresh_s] in E. rewrite !tree_toks_node in E. cbn [andb dir_value_enc] in E. apply toks2_inj in E. destruct E as [Ed Ec].
+    inversion W1 as [|? ? Wi1 Wd1 Wn1 Wl1 Wc1]; subst. inversion W2 as [|? ? Wi2 Wd2 Wn2 Wl2 Wc2]; subst.
+    rewrite !names_fresh_children in Ed.
+    destruct (isdir i) eqn:Hi, (isdir j) eqn:Hj.
+    + apply enc_value_injective in Ed; [| apply wf_filtered_value; assumption | apply wf_filtered_value; assumption].
+      injection Ed as En. cbn [negb] in Ec.
+      assert (Hlen : length cs = length ds).
+      { unfold names in En. rewrite <- (map_length fst cs), <- (map_length fst ds), En. reflexivity. }
+      apply flat_map_pairs_inj in Ec; [| rewrite !map_length; exact Hlen | reflexivity | reflexivity].
+      assert (Ecs : cs = ds).
+      { clear Hlen Wd1 Wd2 Wn1 Wn2 Wl1 Wl2 W1 W2 Hi Hj.
+        revert ds En Ec Wc2. induction cs as [|[n1 c1] cs IHl]; intros [|[n2 c2] ds] En Ec Wc2; cbn [names map] in En; try discriminate En; [reflexivity|].
+        cbn [fst] in En. injection En as En Ens. subst n2.
+        cbn [map fst snd] in Ec. inversion Ec as [|? ? ? ? Eh Et]; subst. inversion IH as [|? ? IHc IHcs]; subst.
+        inversion Wc1 as [|? ? Wc1h Wc1t]; subst. inversion Wc2 as [|? ? Wc2h Wc2t]; subst.
+        cbn [snd] in IHc, Wc1h, Wc2h.
+        f_equal; [| apply IHl; assumption]. f_equal.
+        unfold child_toks in Eh. cbn [fst snd] in Eh. apply pair_toks_inj in Eh. destruct Eh as [Ev Es].
+        destruct c1 as [|a1 d1], c2 as [|a2 d2]; cbn [fresh_s node_value_enc] in Ev.
+        - reflexivity.
+        - exfalso. exact (missing_not_existing _ Ev).
+        - exfalso. symmetry in Ev. exact (missing_not_existing _ Ev).
+        - inversion Wc1h as [|? ? Wa1 Wdd1 _ _ _]; subst. inversion Wc2h as [|? ? Wa2 Wdd2 _ _ _]; subst.
+          apply existing_enc_inj in Ev; [| assumption | assumption]. subst a2.
+          cbn [fresh_s] in Es. unfold sub_tok in Es. destruct (isdir a1) eqn:Hd.
+          + apply tsub_inj in Es. apply (same_beneath_eq a1 d1 a1 d2); [| reflexivity].
+            apply (IHc (VNode a1 d2) (path_append p n1)); [assumption | assumption |]. exact Es.
+          + rewrite Wdd1, Wdd2 by reflexivity. reflexivity. }
+      subst ds. constructor; assumption.
+    + exfalso. revert Ed. apply enc_kind_neq. cbn. discriminate.
+    + exfalso. revert Ed. apply enc_kind_neq. cbn. discriminate.
+    + apply existing_enc_inj in Ed; [| assumption | assumption]. subst j.
+      rewrite Wd1, Wd2 by reflexivity. apply sb_other. exact Hi.
+Qed.
+
+(* and conversely *)
+Lemma tree_toks_filtered_of_beneath v1 v2 p : same_beneath v1 v2 ->
+  tree_toks true p (fresh_s v1) = tree_toks true p (fresh_s v2).
+Proof.
+  intros Hs. inversion Hs as [|i j cs Hi Hj|i cs Hi]; subst; [reflexivity | | reflexivity].
+  cbn [fresh_s]. rewrite !tree_toks_node. cbn [dir_value_enc andb]. rewrite Hi, Hj. reflexivity.
+Qed.
+
+Section FilteredTrees.
+Variable matches : bytes -> bytes -> bool.
+
+(* with patterns: equal tokens <-> the pruned trees agree in everything beneath the root *)
+Theorem filtered_tokens_injective flt p v1 v2 : flt <> [] ->
+  wf_v (prune matches flt v1) -> wf_v (prune matches flt v2) ->
+  (tree_tokens matches flt p v1 = tree_tokens matches flt p v2 <->
+   same_beneath (canon (prune matches flt v1)) (canon (prune matches flt v2))).
+Proof.
+  intros Hne W1 W2. rewrite !filtered_tokens_pruned, !clean_build_fresh.
+  assert (Hf : nonempty flt = true) by (destruct flt; [contradiction | reflexivity]). rewrite Hf.
+  split.
+  - apply tree_toks_filtered_inj; apply wf_v_canon; assumption.
+  - apply tree_toks_filtered_of_beneath.
+Qed.
+
+(* any difference among the non-excluded entries of a directory tree, at any depth, changes the filtered tokens *)
+Theorem filtered_sig_detects flt p v v' i cs i' cs' : flt <> [] ->
+  prune matches flt v = VNode i cs -> prune matches flt v' = VNode i' cs' ->
+  wf_v (VNode i cs) -> wf_v (VNode i' cs') -> sorted_v (VNode i cs) -> sorted_v (VNode i' cs') ->
+  cs <> cs' -> tree_tokens matches flt p v <> tree_tokens matches flt p v'.
+Proof.
+  intros Hne P1 P2 W1 W2 S1 S2 Hd E.
+  apply (filtered_tokens_injective flt p v v' Hne) in E; [| rewrite P1; exact W1 | rewrite P2; exact W2].
+  rewrite P1, P2, (canon_sorted _ S1), (canon_sorted _ S2) in E.
+  inversion E; subst; contradiction.
+Qed.
+End FilteredTrees.
